@@ -20,34 +20,34 @@ type Anchors struct {
 	CSDone         FieldRef     // atomic.Pointer terminal marker of CS
 	SSHalfClosed   FieldRef     // atomic.Pointer half-close marker of SS
 
-	ClientLoop    *ssa.Function // (*Ch).recvLoop
-	ServerLoop    *ssa.Function // (*Sv).serve
-	ClientFinish  *ssa.Function // (*CS).finishStream
-	ServerFinish  *ssa.Function // (*SS).finishStream
-	ServerHalf    *ssa.Function // (*SS).halfClose
-	Create        *ssa.Function // (*Sv).createStream
-	Allocate      *ssa.Function // (*Ch).allocateStream
-	NewStream     *ssa.Function // (*Ch).newStream
-	Dispatch      *ssa.Function // (*SS).serveStream
-	ClientReasm   *ssa.Function // (*CS).readMsgLocked
-	ServerReasm   *ssa.Function // (*SS).readMsgLocked
+	ClientLoop                         *ssa.Function // (*Ch).recvLoop
+	ServerLoop                         *ssa.Function // (*Sv).serve
+	ClientFinish                       *ssa.Function // (*CS).finishStream
+	ServerFinish                       *ssa.Function // (*SS).finishStream
+	ServerHalf                         *ssa.Function // (*SS).halfClose
+	Create                             *ssa.Function // (*Sv).createStream
+	Allocate                           *ssa.Function // (*Ch).allocateStream
+	NewStream                          *ssa.Function // (*Ch).newStream
+	Dispatch                           *ssa.Function // (*SS).serveStream
+	ClientReasm                        *ssa.Function // (*CS).readMsgLocked
+	ServerReasm                        *ssa.Function // (*SS).readMsgLocked
 	ClientReasmEntry, ServerReasmEntry *ssa.Function // what the read methods call (the reassembly function, or a wrapper split off it)
-	ClientRead    *ssa.Function // (*CS).readMsg
-	ServerRead    *ssa.Function // (*SS).readMsg
-	ClientAccept  *ssa.Function // (*CS).acceptServerFrame
-	ServerAccept  *ssa.Function // (*SS).acceptClientFrame
-	CancelStream  *ssa.Function // (*CS).cancelStream
-	ChClose       *ssa.Function // (*Ch).close
-	ClientLookup  *ssa.Function // (*Ch).getStream
-	ServerLookup  *ssa.Function // (*Sv).getStream
-	ClientRemove  *ssa.Function // (*Ch).removeStream
-	ServerRemove  *ssa.Function // (*Sv).removeStream
-	TimeoutParse  *ssa.Function
-	ClientSend    *ssa.Function // (*CS).SendMsg
-	ServerSend    *ssa.Function // (*SS).SendMsg
-	ClientRecv    *ssa.Function // (*CS).RecvMsg
-	ServerRecv    *ssa.Function // (*SS).RecvMsg
-	HeadersLocked *ssa.Function // (*SS).sendHeadersLocked
+	ClientRead                         *ssa.Function // (*CS).readMsg
+	ServerRead                         *ssa.Function // (*SS).readMsg
+	ClientAccept                       *ssa.Function // (*CS).acceptServerFrame
+	ServerAccept                       *ssa.Function // (*SS).acceptClientFrame
+	CancelStream                       *ssa.Function // (*CS).cancelStream
+	ChClose                            *ssa.Function // (*Ch).close
+	ClientLookup                       *ssa.Function // (*Ch).getStream
+	ServerLookup                       *ssa.Function // (*Sv).getStream
+	ClientRemove                       *ssa.Function // (*Ch).removeStream
+	ServerRemove                       *ssa.Function // (*Sv).removeStream
+	TimeoutParse                       *ssa.Function
+	ClientSend                         *ssa.Function // (*CS).SendMsg
+	ServerSend                         *ssa.Function // (*SS).SendMsg
+	ClientRecv                         *ssa.Function // (*CS).RecvMsg
+	ServerRecv                         *ssa.Function // (*SS).RecvMsg
+	HeadersLocked                      *ssa.Function // (*SS).sendHeadersLocked
 
 	How     map[string]string // role -> how it was resolved
 	Missing []string
